@@ -95,6 +95,22 @@ TABLES = ("DEFAULT", "STANDARD", "PROKARYOTE")
 NONCODING = ["tRNA", "rRNA", "misc_RNA", "ncRNA", "lncRNA", "snoRNA", "tmRNA"]
 
 
+def setup(ctx):
+    """Before anything is exported in this process: a few hundred distinct (IUPAC) codon objects are created and dropped, as a long
+    annotation run would have done - what an export says about start codons must not depend on how many codons the process has seen."""
+    import itertools as _it
+
+    from inscripta.biocantor.gene.codon import Codon
+
+    n = 0
+    for trip in _it.product("ACGTNRYKMSW", repeat=3):
+        c = Codon("".join(trip))
+        n += 1 if c is not None else 0
+        if n >= 700:
+            break
+    ctx.bump("codon-storm-codons", n)
+
+
 def selftest():
     import glob
     import os
@@ -255,7 +271,7 @@ def _rich_qualifiers(rng, kind, base=None):
     return q
 
 
-def _rand_gene(rng, lo, hi, ident, allow_k13):
+def _rand_gene(rng, lo, hi, ident, allow_k13, max_exons=4):
     kind = rng.choice(["coding"] * 6 + NONCODING)
     strand = rng.choice("+-")
     ntx = rng.choice([1, 1, 1, 2, 3])
@@ -267,7 +283,7 @@ def _rand_gene(rng, lo, hi, ident, allow_k13):
                 txs[-1]["qualifiers"] = _rich_qualifiers(rng, kind)
             continue
         for attempt in range(40):
-            t = GG.rand_transcript_spec(rng, lo, hi, coding=(kind == "coding"), max_exons=4, strand=strand, ident=f"{ident}_{k}",
+            t = GG.rand_transcript_spec(rng, lo, hi, coding=(kind == "coding"), max_exons=max_exons, strand=strand, ident=f"{ident}_{k}",
                                         start_offset=rng.choice([0, 0, 1, 2]), qualifiers=rng.random() < 0.5,
                                         frameshifts=None if rng.random() < 0.8 else 1)
             if kind != "coding":
@@ -293,14 +309,15 @@ def _rand_gene(rng, lo, hi, ident, allow_k13):
             "qualifiers": _rich_qualifiers(rng, "gene", GG.rand_qualifiers(rng)) if rng.random() < 0.5 else {}, "guid": None}
 
 
-def _rand_coll(rng, name, allow_k13):
-    glen = rng.choice([120, 200, 320])
-    ng = rng.choice([1, 2, 2, 3, 4])
+def _rand_coll(rng, name, allow_k13, scale=False):
+    glen = rng.choice([120, 200, 320]) if not scale else rng.choice([900, 1500])
+    ng = rng.choice([1, 2, 2, 3, 4]) if not scale else 1
     genes = []
     for k in range(ng):
-        w = rng.randint(20, max(20, glen // 2))
+        w = rng.randint(20, max(20, glen // 2)) if not scale else glen - 20
         s = rng.randint(0, glen - w)
-        genes.append(_rand_gene(rng, s, s + w, f"{name}g{k}", allow_k13))
+        # scale: one gene whose transcripts have up to 60 exons (strategies that switch by block count)
+        genes.append(_rand_gene(rng, s, s + w, f"{name}g{k}", allow_k13, max_exons=4 if not scale else rng.choice([30, 45, 60])))
     g = list(GG.rand_genome(rng, glen, rng.choice(["ACGT"] * 5 + ["ACGTacgt"])))  # a share of soft-masked (mixed case) genomes
     for gene in genes:
         for t in gene["transcripts"]:
@@ -386,6 +403,11 @@ def cases(spec, ctx):
                "prefix": rng.choice(["PFX", "test", "AB12", None]), "lab": rng.choice(["inscripta", None]),
                "jump": rng.choice([1, 2, 5, 5, 10, 100, 1000]), "seed": rng.choice([0, 1, 7, 123, 99991, 2 ** 32 - 1]),
                "combos": [[f, tb] for f in FLAVOURS for tb in TABLES]}
+    srng = __import__("random").Random(f"C17-scale:{ctx.seed}:{i}")
+    for k in range(sc["NR"] // (40 * n) + 1):
+        built = [_rand_coll(srng, "chrS", False, scale=True)]
+        yield {"kind": "rand-scale", "names": ["chrS"], "genomes": [b[2] for b in built], "genes": [b[0] for b in built], "fcolls": [b[1] for b in built],
+               "prefix": "SC", "lab": "lab", "jump": 5, "seed": 7, "combos": [[f, tb] for f in FLAVOURS for tb in TABLES]}
 
 
 # ------------------------------------------------------------------------------------------------------------------
@@ -509,7 +531,9 @@ def _export(colls, case, flavour, table, seed):
     from inscripta.biocantor.io.ncbi.tbl_writer import collection_to_tbl
 
     fh = io.StringIO()
-    collection_to_tbl(colls, fh, translation_table=TranslationTable[table], locus_tag_prefix=case["prefix"], genbank_flavor=GenbankFlavor[flavour],
+    # `collections` is documented as an Iterable: a third of the exports (chosen by the case) hand over a one-shot generator
+    arg = (c for c in colls) if (case["jump"] + len(case["prefix"] or "") + seed) % 3 == 0 else colls
+    collection_to_tbl(arg, fh, translation_table=TranslationTable[table], locus_tag_prefix=case["prefix"], genbank_flavor=GenbankFlavor[flavour],
                       locus_tag_jump_size=case["jump"], submitter_lab_name=case["lab"], random_seed=seed)
     return fh.getvalue()
 
